@@ -15,6 +15,10 @@ META = {
             'for histories with explicit flush() calls and run-time reconfiguration (append/sendToFile on the logger or an existing nested '
             'pipeline, remove, clearSinks) the files of the FINAL configuration = those of the logger without any buffering; the same for '
             'the source as compiled with -DQTLOGGER_NO_THREAD (the flush must be reachable in every configuration); '
+            'for SEVERAL file sinks on ONE file (a sink replaced at run time by a new one for the same file, a second short-lived Logger '
+            'object on the same file; destroyed sinks close = flush their QFile): every file holds, from every QFile ever opened on it, '
+            'exactly the stream the unbuffered logger would have written (each record once per sink that wrote it); records of any '
+            'length, the EMPTY text (a one-byte record) included; '
             're-checked on every run against where/when Logger::processMessage flushes, what recursiveFlush reaches and what '
             'FileSink::flush does as read from the source; the real library is run in child processes that die by SIGABRT '
             '(and by SIGKILL without a fatal message, to validate the buffering model) and the files are compared with the '
@@ -46,6 +50,8 @@ KIND_NAMES = {'oF': 'plain', 'oR': 'rotating', 'oFR': 'both', 'o(F)': 'nested', 
               'olF': 'LevelFilter(warning) before the file sink', 'o(eF)(xR)': 'even/odd ids split over two files',
               'oB(F)R': 'full device before a nested and a rotating sink', 'oNFR': 'null handler entry before the file sinks', 'oq': 'rotating sink, 1000-byte limit, explicit flush() before the rotation',
               'oQ': 'rotating sink whose rotation rename fails (name occupied by a directory)',
+              'okK': 'rotating sink s0.log keeping 3 files next to rotating sink ws0.log keeping everything',
+              'oKk': 'rotating sink ws1.log keeping everything next to rotating sink s1.log keeping 3 files',
               'ONEQ': 'one-line configure(path, 1000) whose rotation rename fails',
               'ONEA1': 'one-line configure(async=true) then resetOwnThread()', 'ONEA2': 'one-line configure(async=true), event loop ran and quit',
               'N(FN)NF': 'null handler entries at both levels', 'SoF': 'slow handler keeps another thread inside the logger',
@@ -186,7 +192,7 @@ def forgive_faults(files, reference, zids):
     return ';'.join(out)
 
 
-SINK_LETTERS = 'FRrDBqQ'
+SINK_LETTERS = 'FRrDBqQkK'
 
 
 def parse_sinks(txt):
@@ -267,16 +273,21 @@ def read_sink(d, k, sc, hint=()):
     sizes = [s for _, s in expand(sc['msgs'])] + [sc['fatalsize']]
     ntmp = tmp_records(sc)
     blank = {i: text_of(i, sz) for i, sz in enumerate(sizes) if sz <= 0}
+    base = 's%d' % k
+    letters = sink_letters(sc)
+    if k < len(letters) and letters[k] == 'K':   # named after the last k sink before it: ws<j>.log
+        js = [j for j in range(k) if letters[j] == 'k']
+        base = 'ws%d' % (js[-1] if js else k + 1)
     used = {}
     want = {}
     for i in hint:
         want[i] = want.get(i, 0) + 1
     rot = []
-    for p in glob.glob(os.path.join(d, 's%d.*.log' % k)):
-        m = re.match(r's\d+\.(\d{4}-\d{2}-\d{2})\.(\d+)\.log$', os.path.basename(p))
+    for p in glob.glob(os.path.join(d, base + '.*.log')):
+        m = re.match(r'w?s\d+\.(\d{4}-\d{2}-\d{2})\.(\d+)\.log$', os.path.basename(p))
         if m:
             rot.append((m.group(1), int(m.group(2)), p))
-    paths = [p for _, _, p in sorted(rot) if not os.path.isdir(p)] + [os.path.join(d, 's%d.log' % k)]
+    paths = [p for _, _, p in sorted(rot) if not os.path.isdir(p)] + [os.path.join(d, base + '.log')]
     front = sc['tree'].startswith('ONE')
     ids, defects, last = [], [], -1
     for p in paths:
@@ -337,17 +348,22 @@ def run_impl(impl, sc, gone=(), hint=None):
         files, raw, defects = [], [], []
         info = sink_info(sc)
         shared = {a for _, a in info if a is not None}
+        # two records with the same blank text cannot be told apart: in a file several sinks wrote, their order then
+        # says nothing (the oracle gets the sorted ids: same records the same number of times)
+        btexts = [sz for sz in [x for _, x in expand(sc['msgs'])] + [sc['fatalsize']] if sz <= 0]
+        ambiguous = len(set(btexts)) < len(btexts)
         for k, (c, a) in enumerate(info):
             if a is not None:  # logs to the file of sink a: reported there
                 files.append('=%d' % a); raw.append('=%d' % a); continue
             if k in gone:      # no sink of the final configuration logs to this file
                 files.append('G'); raw.append('G'); continue
-            if c == 'B':
+            if c in 'Bk':     # /dev/full; a sink with a file-count limit (what it keeps is retention, C06)
                 files.append('X'); raw.append('X'); continue
             ids, df = read_sink(d, k, sc, hint_of(hint).get(k, ()))
             # a file several sinks wrote: the order in which their streams interleave is not modelled (sorted for the
             # comparison with the model; the oracle gets the ids in file order)
-            files.append(ranges(sorted(ids) if k in shared else ids)); raw.append(ranges(ids))
+            files.append(ranges(sorted(ids) if k in shared else ids))
+            raw.append(ranges(sorted(ids) if k in shared and ambiguous else ids))
             defects += ['s%d: %s' % (k, x) for x in df]
         r = {'rc': p.returncode, 'files': ';'.join(files), 'defects': defects[:5]}
         if shared:
@@ -460,6 +476,11 @@ def scenarios(chk):
             addraw(tree, 'fatal', 'sec', 'm1000*40,%s,m1000*40' % recfg, 13, 'shared-file')
         if tree not in MODEL_TREE:
             addraw(tree, 'kill', 'main', 'm10*2,%s,m10*3' % recfg, 13, 'shared-file-kill')
+    # two rotating sinks in ONE directory, the file name of one ending with the name of the other (s0.log / ws0.log), the
+    # shorter-named one with a file-count limit: its retention must not delete the rotated files of the other
+    for tree, th in (('okK', 'main'), ('oKk', 'sec'), ('ok(K)F', 'main')):
+        add(tree, 'fatal', th, [('m', 99)] * 80, 13, 'retention-of-a-neighbour')
+    add('okK', 'kill', 'main', [('m', 99)] * 80, 13, 'retention-of-a-neighbour')
     # random trees and histories aimed at the case splits: buffer overflow (pre-flush), blocks above the
     # chunk size (bypass), exactly the chunk size, all message types, deeper nesting, several sinks
     def rtree(depth):
@@ -617,6 +638,17 @@ def reconf_after_flush(sc):
     return False
 
 
+def replaced_on_same_file(sc):
+    """a sink on an existing sink's file is added and a handler is removed afterwards"""
+    seen = False
+    for e in events(sc['msgs']):
+        if e[0] in '+^' and '@' in e[1]:
+            seen = True
+        elif e[0] in '~!' and seen:
+            return True
+    return False
+
+
 def thorough_tier(chk):
     return chk.tier == 'thorough'
 
@@ -638,7 +670,14 @@ def run():
                        'process death, not power loss: data handed to the kernel by write() counts as in the file',
                        'transient device faults (z messages: file size limit 0 for one message, after a flush) are in the model as a reject '
                        'oracle: the rejected record is lost iff it bypasses QFile\'s buffer (> 16 KiB), every other record must be on disk',
-                       'rotation (64 KiB scenarios) conserves records across the rotated files (C05); their concatenation is compared']
+                       'rotation (64 KiB scenarios) conserves records across the rotated files (C05); their concatenation is compared',
+                       'several file sinks on one file: each has its own QFile (descriptor opened for appending, own buffer); the ORDER in which '
+                       'their streams interleave in the file is not modelled: the model is compared on the sorted ids, the oracle demands the same '
+                       'records the same number of times and every stream as a subsequence of the file; a sink that leaves the configuration is '
+                       'destroyed (the harness keeps no reference), which closes and so flushes its QFile',
+                       'records with an empty / blank text carry no id: two with the same text are told apart only by position, with what the '
+                       'file is supposed to hold as a hint (a missing or surplus line still shows); behind the one-line front-end the number of '
+                       'blanks of a blank text is not checked (PrettyFormatter pads a thread field with blanks)']
     chk.proof(vlib.proof_leg('Properties_C11', ['fatal']))
     model = vlib.build_model('fatal')
     impl = vlib.build_harness('fatal')
@@ -716,7 +755,10 @@ def run():
                                  'threads, ( ) nested pipeline; message i has type diwc[i%4] for m; z = logged while the device rejects writes; '
                                  'f = explicit flush(); q/Q rotating sink with 1000-byte limit (Q: rename blocked); thread busy = last preceding message held inside the logger by a helper thread when main raises the fatal; '
                                  'reconfiguration between two messages: +<path>:<handler> append, ^<path>:F|R sendToFile, ~<path>:<k> remove the k-th handler, '
-                                 '!<path>: clearSinks(); <path> = handler indices from the logger, joined by dots (empty = the logger)',
+                                 '!<path>: clearSinks(); <path> = handler indices from the logger, joined by dots (empty = the logger); '
+                                 'size 0 = the EMPTY text, size -n = a text of n blanks; <sink letter>@<k> = a NEW file sink on the file of sink k (reported as =k; '
+                                 'the field of sink k lists the records of the file, sorted when several sinks wrote it); &<k>:<n> = a second Logger object with a '
+                                 'file sink on the file of sink k logs n records (ids from 1000000) and goes out of scope',
                   'died_by': death,
                   'byte_defects': r['defects'], 'model_with_translated_source_predicts': mo[0] if mo else None,
                   'exit_status': r['rc'], 'falsified_scenarios': len(falsified_scs),
@@ -819,6 +861,11 @@ def run():
         'scenarios_reconfigured_after_an_explicit_flush': sum(1 for s in scs if reconf_after_flush(s)),
         'reconfiguration_items': {k: sum(1 for s in scs for e in events(s['msgs']) if e[0] == k) for k in OPS},
         'scenarios_where_a_sink_left_the_configuration': sum(1 for m in out_m if 'G' in m.split(';')),
+        'scenarios_with_empty_or_blank_text': sum(1 for s in scs if s['fatalsize'] <= 0 or any(sz <= 0 for _, sz in expand(s['msgs']))),
+        'scenarios_with_empty_or_blank_fatal_text': hist(lambda s: 'empty' if s['fatalsize'] == 0 else 'blank' if s['fatalsize'] < 0 else 'text') ,
+        'scenarios_with_several_sinks_on_one_file': sum(1 for s in scs if has_sharing(s)),
+        'scenarios_with_second_short_lived_logger': sum(1 for s in scs if any(e[0] == '&' for e in events(s['msgs']))),
+        'scenarios_new_sink_on_same_file_then_old_one_removed': sum(1 for s in scs if replaced_on_same_file(s)),
         'scenarios_with_blocked_rotation_rename': sum(1 for s in scs if 'Q' in s['tree']),
         'scenarios_logger_became_synchronous': sum(1 for s in scs if s['tree'] in ('ONEA1', 'ONEA2')),
         'scenarios_with_busy_logger': sum(1 for s in scs if s['thread'] == 'busy'),
